@@ -85,6 +85,8 @@ func checkC10(c *Ctx) {
 	c.Rule("C10-R3", "no method returns with the mutex held, none acquires it twice")
 	c.Rule("C10-R5", "what GetContent hands out is never written again: combining runes are stored as a fresh copy and no function writes through a stored slice (readers hold the slice outside the lock)")
 	c.Expect("C10-R5", 2)
+	c.Rule("C10-R6", "concurrent Fini calls are safe: the shutdown body runs through sync.Once only and the quit channel has a single closer (a flag read under the lock and acted upon after releasing it lets two callers close the channel)")
+	c.Expect("C10-R6", 3)
 	c.Rule("C10-R4", "memory handed from the input goroutine to the main loop over a channel is not written again by the sender (a fresh array per chunk): the lock does not cover it")
 	c.Expect("C10-R4", 1)
 	c.Expect("C10-R1", 150)
@@ -98,6 +100,9 @@ func checkC10(c *Ctx) {
 	if p := c.P("linux"); p != nil && p.Tcell != nil {
 		checkChunkOwnership(c, p, "C10-R4")
 		c.asRule("C08-R4", "C10-R5", func() { c08Alias(c, p, cbMethods(p)) })
+		// concurrent Fini calls: the shutdown body runs once whoever comes first (sync.Once, not a
+		// flag that is read, released and acted upon)
+		c.asRule("C06-R3", "C10-R6", func() { c06Once(c, p) })
 	}
 	if c.Tier == "thorough" {
 		for _, cfg := range []string{"darwin", "freebsd"} {
